@@ -18,7 +18,7 @@ enum LK {
     Expr,
 }
 
-const LINES: [(&str, LK); 21] = [
+const LINES: [(&str, LK); 23] = [
     ("// name", LK::Comment("name")),
     ("//  padded \t", LK::Comment("padded")),
     ("//", LK::Comment("")),
@@ -36,6 +36,8 @@ const LINES: [(&str, LK); 21] = [
     ("@description: i5;", LK::Meta),
     ("@k: x;", LK::Meta),
     ("@k: -i1;", LK::Meta),
+    ("@k: [i1, x];", LK::Meta),
+    ("@k: {a: i1, b: {c: f(i1)}};", LK::Meta),
     ("i1 + i2", LK::Expr),
     ("i1 +", LK::Expr),
     ("i2", LK::Expr),
@@ -237,7 +239,7 @@ pub fn run(tier: Tier) -> i32 {
     rep.states = count + 1;
     rep.transitions = (count + 1) * 4;
     rep.traces = rep.acc.get("executions");
-    rep.rule = "every sequence of lines up to the bound over a 21-line alphabet (comment lines incl. padded/empty/indented, blank line, 12 metadata lines incl. duplicates, case variants, name/description overrides and non-constant values, expression lines incl. a split expression and a trailing comment), joined with LF and CRLF, with and without a final terminator; each parsed by Rule::parse and compared with a reference rule-text model (reference grammar for accept/reject, metadata and expression; comment lines from the components; plus the differential 'expression = parse of the text without metadata lines')".into();
+    rep.rule = "every sequence of lines up to the bound over a 23-line alphabet (comment lines incl. padded/empty/indented, blank line, 12 metadata lines incl. duplicates, case variants, name/description overrides and non-constant values, expression lines incl. a split expression and a trailing comment), joined with LF and CRLF, with and without a final terminator; each parsed by Rule::parse and compared with a reference rule-text model (reference grammar for accept/reject, metadata and expression; comment lines from the components; plus the differential 'expression = parse of the text without metadata lines')".into();
     rep.assume("bare CR line ends and // at the start of a line inside a multi-line string literal are outside the alphabet (DESIGN §5 U8); an empty name from a bare // line counts as a name (U10)");
     rep.finish()
 }
